@@ -1332,3 +1332,68 @@ def dealias(f: Func) -> Func:
     g = Func(f.mod, f.qual, node, f.cls)
     _DEALIAS_CACHE[k] = (f.node, g)
     return g
+
+
+# ---------------------------------------------------------------------------------------------------------------------
+# table-driven case splits:  for bound, a, b in _TABLE: if x < bound: return F(a, b)      ==      the unrolled if-chain
+
+def _literal(e: ast.expr) -> bool:
+    if isinstance(e, ast.Constant):
+        return True
+    if isinstance(e, ast.UnaryOp) and isinstance(e.op, (ast.USub, ast.UAdd)) and isinstance(e.operand, ast.Constant):
+        return True
+    if isinstance(e, (ast.Tuple, ast.List)):
+        return all(_literal(x) for x in e.elts)
+    return False
+
+
+def unroll_const_loops(P: Program, f: Func, limit: int = 24) -> Func:
+    """A copy of f in which every `for <targets> in <NAME>` over a module-level (or class-level) constant table of literals is written out:
+    one copy of the body per row, the loop variables replaced by the row's literals.  Only loops without break / continue / else."""
+    tables: Dict[str, ast.expr] = {k: v for k, v in f.mod.module_assigns().items() if isinstance(v, (ast.Tuple, ast.List)) and _literal(v) and len(v.elts) <= limit}
+    if f.cls and f.cls in f.mod.classes:
+        for st in f.mod.classes[f.cls].node.body:
+            if isinstance(st, ast.Assign) and len(st.targets) == 1 and isinstance(st.targets[0], ast.Name) and isinstance(st.value, (ast.Tuple, ast.List)) and _literal(st.value) \
+                    and len(st.value.elts) <= limit:
+                tables[f"self.{st.targets[0].id}"] = st.value
+                tables[f"{f.cls}.{st.targets[0].id}"] = st.value
+    if not tables:
+        return f
+    changed = [False]
+
+    def expand(stmts: List[ast.stmt]) -> List[ast.stmt]:
+        out: List[ast.stmt] = []
+        for st in stmts:
+            key = norm.U(st.iter) if isinstance(st, ast.For) else None
+            if isinstance(st, ast.For) and key in tables and not st.orelse \
+                    and not any(isinstance(x, (ast.Break, ast.Continue)) for b in st.body for x in ast.walk(b)):
+                rows = tables[key].elts
+                tg = st.target
+                names = [t.id for t in tg.elts] if isinstance(tg, ast.Tuple) and all(isinstance(t, ast.Name) for t in tg.elts) else ([tg.id] if isinstance(tg, ast.Name) else None)
+                # the loop variables must not be used after the loop
+                if names is not None and all((len(r.elts) == len(names)) if isinstance(tg, ast.Tuple) else True for r in rows if isinstance(r, (ast.Tuple, ast.List)) or not isinstance(tg, ast.Tuple)):
+                    for r in rows:
+                        vals = list(r.elts) if isinstance(tg, ast.Tuple) else [r]
+                        env = dict(zip(names, vals))
+                        for b in st.body:
+                            nb = norm.Subst(env).visit(norm.clone(b))
+                            out.append(nb)
+                    changed[0] = True
+                    continue
+            for fld in ("body", "orelse", "finalbody"):
+                b = getattr(st, fld, None)
+                if isinstance(b, list) and b and isinstance(b[0], ast.stmt):
+                    setattr(st, fld, expand(b))
+            out.append(st)
+        return out
+
+    node = norm.clone(f.node)
+    node.body = expand(node.body)
+    if not changed[0]:
+        return f
+    ast.fix_missing_locations(node)
+    for n in ast.walk(node):
+        for ch in ast.iter_child_nodes(n):
+            ch._parent = n  # type: ignore[attr-defined]
+    node._parent = getattr(f.node, "_parent", None)  # type: ignore[attr-defined]
+    return Func(f.mod, f.qual, node, f.cls)
